@@ -189,6 +189,9 @@ def _run(prop, tier, seed, args, t0):
 
     if args.replay:
         payload = json.load(open(args.replay))
+        # a stored case is a pure function of (seed, tier, stream, index): replay under the seed/tier it was found with
+        seed = int(payload.get('seed', seed))
+        tier = payload.get('tier', tier)
         ctx = Ctx(prop, tier, seed, 1, lean_bridge.Driver(mod.DRIVER))
         if 'case' in payload and hasattr(mod, 'replay'):
             res = mod.replay(ctx, payload['case'])
